@@ -1,6 +1,7 @@
 package main
 
 import (
+	"syscall"
 	"bufio"
 	"bytes"
 	"encoding/json"
@@ -42,7 +43,7 @@ func killAll() {
 	defer procMu.Unlock()
 	for c := range procs {
 		if c.Process != nil {
-			c.Process.Kill()
+			killTree(c)
 		}
 	}
 }
@@ -155,7 +156,22 @@ func (rc *runCtx) command(args ...string) *exec.Cmd {
 	cmd.Env = append(os.Environ(), rc.env...)
 	cmd.Env = append(cmd.Env, "GORACE=halt_on_error=1")
 	cmd.Dir = rc.cfg.scratch
+	// own process group: killing a worker takes the children it started with it, and Wait
+	// does not block on pipes a grandchild still holds
+	cmd.SysProcAttr = &syscall.SysProcAttr{Setpgid: true}
+	cmd.WaitDelay = 5 * time.Second
 	return cmd
+}
+
+// killTree kills a worker and every process it started.
+func killTree(cmd *exec.Cmd) {
+	if cmd == nil || cmd.Process == nil {
+		return
+	}
+	if cmd.SysProcAttr != nil && cmd.SysProcAttr.Setpgid {
+		syscall.Kill(-cmd.Process.Pid, syscall.SIGKILL)
+	}
+	cmd.Process.Kill()
 }
 
 var (
@@ -311,7 +327,7 @@ func (rc *runCtx) search(seed uint64, deadline time.Time, perWorkerCount uint64)
 							t.Reset(limit)
 						case <-t.C:
 							hung = true
-							cmd.Process.Kill()
+							killTree(cmd)
 							return
 						case <-stopDog:
 							return
@@ -351,7 +367,7 @@ func (rc *runCtx) search(seed uint64, deadline time.Time, perWorkerCount uint64)
 					select {
 					case <-waitDone:
 					case <-time.After(120 * time.Second):
-						cmd.Process.Kill()
+						killTree(cmd)
 					}
 				}()
 				err := cmd.Wait()
@@ -442,7 +458,7 @@ func (s *server) stop() {
 		return
 	}
 	s.in.Close()
-	s.cmd.Process.Kill()
+	killTree(s.cmd)
 	s.cmd.Wait()
 	untrack(s.cmd)
 	s.cmd = nil
@@ -502,7 +518,7 @@ func (s *server) eval(tape []uint64, withLog bool, timeout time.Duration) *evalR
 		a = answer{nil, fmt.Errorf("timeout")}
 	}
 	if a.err != nil {
-		s.cmd.Process.Kill()
+		killTree(s.cmd)
 		s.cmd.Wait()
 		untrack(s.cmd)
 		se := s.stderr.String()
